@@ -47,11 +47,26 @@ class C02(DocProp):
     profiles = ["core", "core", "typo", "tags"]
 
     def cases(self, tier, seed, shard, nshards):
+        from vf.gen_para import HAZ_ESCAPED, HAZ_UNESCAPED, plain_word
+        from vf.props.c01 import CONTAINERS
+
         for r, c in self.doc_cases(tier, seed, shard, nshards):
             c["opts"] = [rand_opts(r, plaintext_p=0.1) for _ in range(4)]
             if r.random() < 0.08:
                 c["cli"] = True
             yield c
+            # a hazard paragraph: block-syntax look-alike words that get escaped when they start a line
+            for _ in range(3):
+                n = r.randint(4, 16)
+                words = [plain_word(r, 9) for _ in range(n)]
+                for _ in range(r.randint(1, 3)):
+                    words[r.randint(1, n - 1)] = r.choice(HAZ_ESCAPED + [w for w in HAZ_UNESCAPED if w not in ("\\", "|")])
+                if not words[0][:1].isalpha():
+                    words[0] = "Start"
+                ii, _si = r.choice(CONTAINERS)
+                yield {"kind": "text", "text": ii + " ".join(words) + "\n", "feats": ["hazard"], "profile": "hazard",
+                       "opts": [rand_opts(r, widths=[r.randint(4, 30), r.randint(10, 70)], force={"semantic": False}),
+                                rand_opts(r, widths=[r.randint(4, 30), r.randint(10, 70)], force={"semantic": False})]}
 
     def check(self, case, col: Collector):
         text, feats = self.load(case)
